@@ -13,10 +13,13 @@ use std::process::{Command, Stdio};
 use std::time::{Duration, Instant};
 
 pub fn def() -> StreamDef {
-    StreamDef { name: "hostcrash", generate, new_state: || Box::new(S), child }
+    StreamDef { name: "hostcrash", generate, new_state: || Box::new(S::default()), child }
 }
 
-struct S;
+#[derive(Default)]
+struct S {
+    done: std::collections::HashMap<String, String>,
+}
 
 pub fn deep_text(kind: &str, n: usize) -> Option<String> {
     Some(match kind {
@@ -118,9 +121,9 @@ fn child(args: &[String]) -> i32 {
                 let r = p.execute_streaming(&snap, &params).collect::<Result<Vec<_>, _>>();
                 let el = t0.elapsed().as_millis() as u64;
                 return match r {
-                    Err(e) if e.to_string().contains("Timeout") => if el > 4 * ms + 3000 { 23 } else { 20 },
+                    Err(e) if e.to_string().contains("Timeout") => 20,
                     Err(_) => 11,
-                    Ok(_) => if el > 4 * ms + 3000 { 22 } else { 21 },
+                    Ok(_) => if el > 4 * ms + 10_000 { 22 } else { 21 },
                 };
             }
             let Ok(p) = prepare(&text) else { return 10 };
@@ -135,9 +138,9 @@ fn child(args: &[String]) -> i32 {
             let el = t0.elapsed().as_millis() as u64;
             drop(txn);
             match r {
-                Err(e) if e.to_string().contains("Timeout") => if el > 4 * ms + 3000 { 23 } else { 20 },
+                Err(e) if e.to_string().contains("Timeout") => 20,
                 Err(_) => 11,
-                Ok(_) => if el > 4 * ms + 3000 { 22 } else { 21 },
+                Ok(_) => if el > 4 * ms + 10_000 { 22 } else { 21 },
             }
         }
         Some("mut") => {
@@ -171,7 +174,7 @@ fn spawn(args: &[&str]) -> String {
                 };
             }
             None => {
-                if t0.elapsed() > Duration::from_secs(60) {
+                if t0.elapsed() > Duration::from_secs(if std::env::var("VERIF_TIER").as_deref() == Ok("thorough") { 120 } else { 30 }) {
                     let _ = ch.kill();
                     let _ = ch.wait();
                     return "TIMEOUT".into();
@@ -182,19 +185,61 @@ fn spawn(args: &[&str]) -> String {
     }
 }
 
-impl State for S {
-    fn step(&mut self, ws: &[&str]) -> String {
-        match ws {
-            ["deep", kind, n, mode] => {
-                if deep_text(kind, 1).is_none() || n.parse::<usize>().is_err() {
-                    return "bad-op".into();
-                }
-                spawn(&["deep", kind, n, mode])
+/// the child command of an op line, and whether its detail is part of the output
+fn plan(ws: &[&str]) -> Option<(Vec<String>, bool)> {
+    match ws {
+        ["deep", kind, n, mode] => {
+            if deep_text(kind, 1).is_none() || n.parse::<usize>().is_err() {
+                return None;
             }
-            // what the text evaluates to is not the model's business: only "a result or a clean error"
-            ["mut", seed, len] => spawn(&["mut", seed, len]).split(" | ").next().unwrap_or("").to_string(),
-            ["tmo", kind, n, ms] => spawn(&["tmo", kind, n, ms]).split(" | ").next().unwrap_or("").to_string(),
-            _ => "bad-op".into(),
+            Some((vec!["deep".into(), kind.to_string(), n.to_string(), mode.to_string()], true))
+        }
+        // what a mutated text evaluates to is not the model's business: only "a result or a clean error"
+        ["mut", seed, len] => Some((vec!["mut".into(), seed.to_string(), len.to_string()], false)),
+        ["tmo", kind, n, ms] => Some((vec!["tmo".into(), kind.to_string(), n.to_string(), ms.to_string()], false)),
+        _ => None,
+    }
+}
+
+fn run_planned(args: &[String], with_detail: bool) -> String {
+    let a: Vec<&str> = args.iter().map(|s| s.as_str()).collect();
+    let r = spawn(&a);
+    if with_detail { r } else { r.split(" | ").next().unwrap_or("").to_string() }
+}
+
+impl State for S {
+    /// the ops of a case are independent child processes: run them concurrently (bounded), answer from the cache
+    fn prefetch(&mut self, upcoming: &[String]) {
+        let jobs: Vec<(String, Vec<String>, bool)> = upcoming
+            .iter()
+            .filter_map(|l| {
+                let ws: Vec<&str> = l.split_whitespace().collect();
+                plan(&ws).map(|(a, d)| (ws.join(" "), a, d))
+            })
+            .collect();
+        let workers = std::thread::available_parallelism().map(|n| n.get()).unwrap_or(2).clamp(1, 8).min(jobs.len().max(1));
+        let next = std::sync::atomic::AtomicUsize::new(0);
+        let results = std::sync::Mutex::new(Vec::new());
+        std::thread::scope(|sc| {
+            for _ in 0..workers {
+                sc.spawn(|| loop {
+                    let i = next.fetch_add(1, std::sync::atomic::Ordering::SeqCst);
+                    let Some((key, args, detail)) = jobs.get(i) else { break };
+                    let r = run_planned(args, *detail);
+                    results.lock().unwrap().push((key.clone(), r));
+                });
+            }
+        });
+        self.done.extend(results.into_inner().unwrap());
+    }
+
+    fn step(&mut self, ws: &[&str]) -> String {
+        if let Some(r) = self.done.get(&ws.join(" ")) {
+            return r.clone();
+        }
+        match plan(ws) {
+            Some((args, detail)) => run_planned(&args, detail),
+            None => "bad-op".into(),
         }
     }
 }
@@ -202,15 +247,16 @@ impl State for S {
 fn generate(rng: &mut Rng, n: usize, tier: &str, out: &mut dyn Write) {
     writeln!(out, "#case deep").unwrap();
     let kinds = ["paren", "list", "not", "neg", "plus", "and", "prop", "fn", "case", "sub", "foreach"];
-    let depths: &[usize] = if tier == "quick" { &[100, 200000] } else { &[8, 100, 200000, 1000000] };
+    let depths: &[usize] = if tier == "quick" { &[100, 60000] } else { &[8, 100, 200000, 1000000] };
     for k in kinds {
         for d in depths {
             writeln!(out, "deep {} {} exec", k, d).unwrap();
         }
     }
     writeln!(out, "#case timeouts").unwrap();
-    for k in ["create", "set", "cross", "sort", "ssort", "sdistinct", "sunion", "sagg", "sfilter"] {
-        writeln!(out, "tmo {} {} {}", k, if k == "cross" { 400 } else { 50000 }, 5).unwrap();
+    let tmo_kinds: &[&str] = if tier == "quick" { &["create", "cross", "sort", "ssort", "sdistinct"] } else { &["create", "set", "cross", "sort", "ssort", "sdistinct", "sunion", "sagg", "sfilter"] };
+    for k in tmo_kinds {
+        writeln!(out, "tmo {} {} {}", k, if *k == "cross" { 300 } else { 20000 }, 5).unwrap();
     }
     writeln!(out, "#case mutated").unwrap();
     for _ in 0..n {
